@@ -183,6 +183,9 @@ type eval struct {
 	viaPtr   bool
 	inColl   bool
 	inInline bool
+	partial  bool   // the value is an element / entry the configuration does not mention, of a collection of which it mentions others
+	onInline string // the tag sits on an inline field of this kind (slice, array, map)
+	numKind  string // tags: int, uint, float, dur or "" (kind of the value the parameter is read for)
 }
 
 type pos struct {
@@ -193,6 +196,9 @@ type pos struct {
 	inColl   bool
 	inInline bool
 	initDef  bool
+	partial  bool
+	onInline string
+	numKind  string
 }
 
 func (p pos) child(seg string, cfg *gen.Tree) pos {
@@ -246,7 +252,8 @@ func (w *walker) at(p pos, seg string, raw *gen.Tree) pos {
 
 func (w *walker) add(p pos, what string, ok, soft bool) {
 	w.evals = append(w.evals, eval{path: p.path, alts: p.alts, what: what, ok: ok, soft: soft,
-		fromCfg: p.cfg != nil, initDef: p.initDef && p.cfg == nil, viaPtr: p.viaPtr, inColl: p.inColl, inInline: p.inInline})
+		fromCfg: p.cfg != nil, initDef: p.initDef && p.cfg == nil, viaPtr: p.viaPtr, inColl: p.inColl, inInline: p.inInline,
+		partial: p.partial && p.cfg == nil, onInline: p.onInline, numKind: p.numKind})
 }
 
 func cfgField(cfg *gen.Tree, name string) *gen.Tree {
@@ -270,6 +277,23 @@ func cfgIndex(cfg *gen.Tree, i int) *gen.Tree {
 		return cfg // a primitive is handled like a list of length one
 	}
 	return nil
+}
+
+// mentionsElems reports whether the setting of a collection mentions at least
+// one element / entry.
+func mentionsElems(cfg *gen.Tree) bool {
+	if cfg == nil {
+		return false
+	}
+	if cfg.K == "obj" || cfg.K == "list" {
+		for _, v := range cfg.Vals {
+			if v != nil && v.K != "nil" {
+				return true
+			}
+		}
+		return false
+	}
+	return true // a primitive: list of length one
 }
 
 func sortedKeys(v reflect.Value) []string {
@@ -307,12 +331,14 @@ func (w *walker) walk(td *gen.TD, v reflect.Value, p pos) {
 		for i := 0; i < v.Len(); i++ {
 			q := w.at(p, strconv.Itoa(i), cfgIndex(p.cfg, i))
 			q.inColl = true
+			q.partial = p.partial || (q.cfg == nil && mentionsElems(p.cfg))
 			w.walk(sh.Elem, v.Index(i), q)
 		}
 	case "map":
 		for _, k := range sortedKeys(v) {
 			q := w.at(p, k, cfgField(p.cfg, k))
 			q.inColl = true
+			q.partial = p.partial || (q.cfg == nil && mentionsElems(p.cfg))
 			e := reflect.New(v.Type().Elem()).Elem()
 			e.Set(v.MapIndex(reflect.ValueOf(k).Convert(v.Type().Key())))
 			w.walk(sh.Elem, e, q)
@@ -325,7 +351,7 @@ func (w *walker) walk(td *gen.TD, v reflect.Value, p pos) {
 			}
 			fv := v.Field(i)
 			q := p
-			if f.Inline {
+			if isInline(f) {
 				q.inInline = true
 			} else {
 				q = w.at(p, f.ConfigName(), cfgField(p.cfg, f.ConfigName()))
@@ -338,6 +364,10 @@ func (w *walker) walk(td *gen.TD, v reflect.Value, p pos) {
 				if f.T.Kind == "ptr" {
 					tq.viaPtr = true
 				}
+				if isInline(f) {
+					tq.onInline = f.T.Shape().Kind
+				}
+				_, tq.numKind, _ = tagCandidates(f.T)
 				w.add(tq, t.String(), refTag(t, fv), false)
 				w.elemLevel(f.T, fv, t, q)
 			}
